@@ -972,6 +972,68 @@ def check_dpd_generator(ctx: Check, tree: Tree) -> None:
     ctx.verdict(ok, "R-WIRING", f"{rel.qual}::shift-by-one", tree.loc(rel.node), "DPD relabelling maps the edge ids -1, 0, 1, 2, 3 to 0, 1, 2, 3, 4 (initial state 0, final states 1..3, resonance 4)")
 
 
+def check_wigner_rotation_matrix(ctx: Check, tree: Tree) -> None:
+    """R-WIRING (Wigner rotation, Marangotto 2019 Eq. 36): the rotation matrix of a final state is
+    B(-p) . B_n ... B_1, the inverse of the direct boost times the chain of boosts from the first
+    resonance down to the state, where B_k = BoostMatrix(momentum of the k-th chain member in the frame
+    reached so far) and EVERY boost is applied to all momenta that are still needed and is collected."""
+    fn = tree.func("ampform.kinematics.angles::compute_wigner_rotation_matrix")
+    rd = RD(fn.node)
+    rets = [r for r, _ in rd.returns if r.value is not None]
+    problems = []
+    if len(rets) != 1 or not (isinstance(rets[0].value, ast.Call) and unparse(rets[0].value.func).endswith("MatrixMultiplication")):
+        problems.append("does not return a MatrixMultiplication")
+    else:
+        args = rets[0].value.args
+        first = args[0] if args else None
+        ftxt = " ".join([unparse(first)] + [unparse(d.value) for d in rd.closure(rd.uses(first)) if isinstance(d.value, ast.AST)]) if first is not None else ""
+        if not ("BoostMatrix(NegativeMomentum(" in ftxt.replace(" ", "") and f"{fn.params[1]}[{fn.params[2]}]" in ftxt.replace(" ", "")):
+            problems.append("the first factor is not BoostMatrix(NegativeMomentum(momenta[state_id])) - the inverse of the direct boost")
+        star = [a for a in args[1:] if isinstance(a, ast.Starred)]
+        stxt = " ".join(unparse(d.value) for d in rd.closure(rd.uses(star[0].value)) if isinstance(d.value, ast.AST)) if len(star) == 1 else ""
+        if len(args) != 2 or len(star) != 1 or f"compute_boost_chain({', '.join(fn.params[:3])})" not in stxt:
+            problems.append("the remaining factors are not *compute_boost_chain(topology, momenta, state_id), in chain order")
+    ctx.verdict(not problems, "R-WIRING", f"{fn.qual}::inverse-direct-boost-times-chain", tree.loc(fn.node),
+                "Wigner rotation matrix = BoostMatrix(-p_state) . *compute_boost_chain(topology, momenta, state)", problems or None)
+    ch = tree.func("ampform.kinematics.lorentz::compute_boost_chain")
+    rd = RD(ch.node)
+    problems = []
+    rets = [r for r, _ in rd.returns if r.value is not None]
+    acc = rets[0].value.id if len(rets) == 1 and isinstance(rets[0].value, ast.Name) else None
+    loops = [n for n in walk_function(ch.node) if isinstance(n, ast.For)]
+    if acc is None or len(loops) != 1:
+        raise AnalysisError(f"{ch.qual}: expected `for state in chain: ...; return <list>`")
+    loop = loops[0]
+    ltxt = " ".join([unparse(loop.iter)] + [unparse(d.value) for d in rd.closure(rd.uses(loop.iter)) if isinstance(d.value, ast.AST)])
+    if "__get_boost_chain_ids(" not in ltxt:
+        problems.append("the loop does not run over the boost chain ids (first resonance ... state)")
+    apps = [n for n in walk_function(loop) if isinstance(n, ast.Call) and isinstance(n.func, ast.Attribute) and n.func.attr == "append" and unparse(n.func.value) == acc]
+    if len(apps) != 1 or any(isinstance(a, ast.If) for a in ancestors(apps[0]) if any(a is x for x in ast.walk(loop))):
+        problems.append("not every boost of the chain is collected")
+    else:
+        b = apps[0].args[0]
+        btxt = " ".join([unparse(b)] + [unparse(d.value) for d in rd.closure(rd.uses(b)) if isinstance(d.value, ast.AST)])
+        if "BoostMatrix(" not in btxt or f"[{unparse(loop.target)}]" not in btxt.replace(" ", ""):
+            problems.append("the collected matrix is not BoostMatrix(current momentum of the loop's state)")
+        # the pool of momenta is re-boosted in every step
+        rebinds = [n for n in walk_function(loop) if isinstance(n, ast.Assign) and isinstance(n.value, ast.DictComp)]
+        ok_re = False
+        for r_ in rebinds:
+            v = r_.value
+            if isinstance(v.value, ast.Call) and unparse(v.value.func).endswith("ArrayMultiplication") and len(v.value.args) == 2 and not v.generators[0].ifs:
+                first_ok = isinstance(v.value.args[0], ast.Name) and isinstance(b, ast.Name) and rd.reaching(v.value.args[0]) == rd.reaching(b)
+                src_ok = unparse(v.generators[0].iter) == f"{unparse(r_.targets[0])}.items()"
+                ok_re = ok_re or (first_ok and src_ok)
+        if not ok_re:
+            problems.append("the momenta are not all transformed by the boost of this step before the next step")
+    ctx.verdict(not problems, "R-WIRING", f"{ch.qual}::chain", tree.loc(ch.node),
+                "compute_boost_chain: for every chain member, in order: boost = BoostMatrix(its momentum in the current frame), all pooled momenta boosted, boost collected", problems or None)
+    ids = tree.func("ampform.kinematics.lorentz::__get_boost_chain_ids")
+    txt = unparse(ids.node).replace(" ", "")
+    ok = "list(reversed(list_decay_chain_ids(topology,state_id)))" in txt and ".remove(" in txt and "incoming_edge_ids" in txt
+    ctx.verdict(ok, "R-WIRING", f"{ids.qual}::order", tree.loc(ids.node), "the boost chain runs from the first resonance down to the state (reversed decay chain without the initial state)")
+
+
 def run(ctx: Check, tree: Tree) -> None:
     ctx.decided += [
         "no `.remove(x)` reachable in the package can raise: each is dominated by a membership test, inside a handler, or covered by a recorded structural invariant (R-GUARD)",
@@ -994,6 +1056,7 @@ def run(ctx: Check, tree: Tree) -> None:
     ctx.section(check_dpd_wiring, ctx, tree)
     ctx.section(check_rotation_chain_order, ctx, tree)
     ctx.section(check_wigner_angle_table, ctx, tree)
+    ctx.section(check_wigner_rotation_matrix, ctx, tree)
     ctx.section(check_axisangle_amplitude, ctx, tree)
     ctx.section(check_axisangle_structure, ctx, tree)
     ctx.section(check_dpd_summand, ctx, tree)
